@@ -228,7 +228,8 @@ func (c *QueueLimiterConfig) ApplyDefaults() {
 		c.Ordering = OrderingLIFO
 	}
 
-	c.Tags = append(c.Tags, metricTagOrdering, string(c.Ordering))
+	// never append in place: the caller's tag slice may have spare capacity and be shared with other configs
+	c.Tags = append(c.Tags[:len(c.Tags):len(c.Tags)], metricTagOrdering, string(c.Ordering))
 }
 
 // NewQueueBlockingLimiterFromConfig will create a new QueueBlockingLimiter
